@@ -127,6 +127,14 @@ def interface_sources():
         P % "write('\\''); write('\"'); write('\\\\'); write('\\n'); write('\\r'); write('\\t'); write('\\0'); write('\\x27'); write('\\x22'); write('\\x5c'); write('\\x7f'); write('\\xff');",
         "byte q = '\\'';\nbyte d = '\"';\nbyte bs = '\\\\';\nconst byte[] qs = ['\\'', '\"', '\\\\', '\\n'];\nbyte[] ms = ['\\'', 'z'];\n" + P % "write(q); write(d); write(bs); write(qs); write(ms); if (q == '\\'') { write(\"it's\"); } byte l = '\\''; l += '\\''; byte[] la = ['\\'', '\"']; write(la);",
         P % "write(\"say \\\"hi\\\" and 'bye' \\\\ \\x27 \\x22\"); string s = \"'\"; write(s); write(\"\\\"\"); string[] t = [\"'\", \"\\\"\", \"\\\\\"]; write(t[0]); write(t[1]); write(\"'\"[0]); const byte[] b = \"'\\\"\" is byte[]; write(b);",
+        # label names: user identifiers that look like the generator's numbered labels
+        'empty show(int a) { write(a); }\nempty show(string s) { write(s); }\nempty show_1() { write(1); }\nempty show_0() { }\n' + P % 'show(1); show("x"); show_1(); show_0();',
+        'empty f() { }\nempty @f() { }\nempty !f() { }\nempty f_1() { }\nempty f_2() { }\nempty @f_1() { }\n' + P % 'f(); @f(); try { !f(); } undo { } f_1(); f_2(); @f_1();',
+        'int loop_0 = 1;\nint end_call_0 = 2;\nint var_x_0 = 3;\nempty func_f_0() { }\nempty is_you_0() { }\n' + P % 'for (int i = 0; i < loop_0; i += 1) { func_f_0(); is_you_0(); } sleep(end_call_0 + var_x_0);',
+        'int r0 = 1;\nint fp = 2;\nint ap = 3;\nint stack_start = 4;\nint halt = 5;\nint tnt = 6;\nempty write_int() { }\nempty stack_overflow() { }\n' + P % 'write_int(); stack_overflow(); sleep(r0 + fp + ap + stack_start + halt + tnt);',
+        # several arrays declared in one block (static and dynamic lengths), checked and unchecked
+        P % 'int n = 2; int a[n]; int b[n]; a[0] = 1; b[1] = 2; sleep(a[0] + b[1]);',
+        P % 'int n = 2; byte a[n]; bool b[n + 7]; string c[n]; int d[3]; a[0] = 1; b[8] = true; c[1] = "s"; d[2] = 4; { int e[n]; int f[n]; e[0] = 1; f[1] = 2; }',
         P % 'write([]); write([] is byte[]);',
         P % 'sleep([][0]);',
         P % 'sleep(([1, 2] is byte[])[0]); sleep([1, 2].length); sleep(([1] is bool) is int);',
@@ -296,7 +304,7 @@ def main():
     rep = Report(PID, 'other', 'CrossHair on compiler options and on the parser over short token lists; complete enumeration of the typechecker-to-generator interface tables with the strict assembler as oracle')
     quick = rep.tier == 'quick'
     from hv import chx
-    chx.run_into(rep, 'c10', per_condition_timeout=300 if quick else 1200)
+    chx.run_into(rep, 'c10', per_condition_timeout=700 if quick else 1200)
     kinds = {}
     n = 0
     srcs = interface_sources()
